@@ -36,6 +36,26 @@ class LeanState:
         return len(theorems), len(theorems) - len(bad), bad
 
 
+def leanchecker(st):
+    """thorough tier: the toolchain's independent re-checker replays the compiled proofs of the property and tie
+    modules in a fresh kernel.  Returns None when it accepts, else a note.  Cached on the source hash."""
+    key = _hash_sources() + '|' + ','.join(sorted(st.failed_modules))
+    cache_path = os.path.join(LEAN, '.lake', 'leanchecker_cache.json')
+    try:
+        with open(cache_path) as fh:
+            cache = json.load(fh)
+        if cache.get('key') == key:
+            return cache['note']
+    except Exception:             # noqa: BLE001
+        pass
+    mods = ['Sourcer.Properties'] + [m for m in ('Tie.Flags', 'Tie.Excerpt', 'Tie.MetaTable') if m not in st.failed_modules]
+    rc, out = _run(['lake', 'env', 'leanchecker'] + mods)
+    note = None if rc == 0 else 'leanchecker rejects the compiled proofs: ' + out.strip().split('\n')[0][:200]
+    with open(cache_path, 'w') as fh:
+        json.dump({'key': key, 'note': note}, fh)
+    return note
+
+
 def _strip_comments(text):
     text = re.sub(r'/-.*?-/', '', text, flags=re.S)
     text = re.sub(r'--[^\n]*', '', text)
